@@ -267,6 +267,25 @@ def dro_queries(ctx, seed):
                 ordered = all(min(e) == sorted(min(e2) for e2 in x.event_adapt)[i] for i, e in enumerate(x.event_adapt))
                 ctx.hit('wrong-scenario-values:' + what, {"scenarios": bad, "got": [g.tolist() for g in got], "expected": [np.asarray(v).tolist() for v in ref],
                                                           "events_in_increasing_order": ordered}, c2)
+        if len(shp) >= 1 and shp[0] >= 1:
+            # a slice, and a slice of a slice, of an event-wise decision are event-wise: one value per scenario, labelled
+            n0 = int(shp[0]); k0 = int(r.integers(0, n0)); lo0 = int(r.integers(0, k0 + 1))
+            refs = exp_val if mask.any() else exp_const
+            for what, f_, ref in (('DecVarSub.__call__', lambda: x[k0], [np.asarray(v)[k0] for v in refs]),
+                                  ('DecVarSub[slice][index].__call__', lambda: x[lo0:n0][k0 - lo0], [np.asarray(v)[lo0:n0][k0 - lo0] for v in refs]),
+                                  ('(static + DecVarSub[slice][index]).__call__', lambda: 0 * decs[-1][0] + x[lo0:n0][k0 - lo0], [np.asarray(v)[lo0:n0][k0 - lo0] for v in refs])):
+                ctx.search_cases += 1; ctx.evaluations += 1; ctx.count('query:' + what)
+                c2 = dict(case, query=what, index=[lo0, k0]); ctx.nontriv(c2)
+                try:
+                    with C.quiet():
+                        e_ = f_()
+                        got = series_vals(e_(z.assign(z0)) if mask.any() else e_(), n=(None if len(x.event_adapt) > 1 else S))
+                except Exception as ex:
+                    ctx.hit('query-raises:' + what, {"error": type(ex).__name__ + ': ' + str(ex)[:200]}, c2); continue
+                bad = [s_ for s_ in range(S) if np.asarray(got[s_]).reshape(-1).shape != np.asarray(ref[s_]).reshape(-1).shape
+                       or not np.allclose(np.asarray(got[s_]).reshape(-1), np.asarray(ref[s_]).reshape(-1))]
+                if bad:
+                    ctx.hit('wrong-scenario-values:' + what, {"scenarios": bad, "got": [np.asarray(g).tolist() for g in got], "expected": [np.asarray(v).tolist() for v in ref]}, c2)
         if mask.any():
             # realisations given slice by slice, only partly (the rest is zero), and scenario-wise for a rule that need not be
             # event-wise: one value per scenario
